@@ -75,3 +75,5 @@ def run(chk):
                 else:
                     chk.bad("R4", i.key, i.file, i.line, i.what, i.expected, i.found)
     chk.guard("R3", r3)
+    from .c05 import import_lookup_contracts
+    chk.guard("R5", lambda: import_lookup_contracts(chk, "R5", ["lit", "pat"], with_chain=False))
